@@ -15,6 +15,7 @@
 import IgrisModel.C18.Lemmas
 import IgrisModel.C18.More
 import IgrisModel.C18.Round3
+import IgrisModel.C18.Round3b
 import IgrisModel.C07.Model
 namespace Igris.C18
 open Igris.Proto Spec
@@ -836,5 +837,102 @@ theorem b64DecodeFast_eq (s : List Byte) : b64DecodeFast s = b64Decode s := by
   have h := decLoopTR_eq s [] []
   simp only [List.reverse_nil] at h
   simp only [b64DecodeFast, b64Decode, h, List.reverse_reverse]
+
+/-! ## Round 3b: the fixed-width parsers on a mapped buffer (closes the `getD` gap of `hexAt`) -/
+
+/-- `hex_to_uint8(hex)` completes ⇔ 2 characters are mapped at `hex`; then it is `hexToUint8` -/
+theorem hexToUint8M_eq (t : List Byte) :
+    hexToUint8M t = if 2 ≤ t.length then some (hexToUint8 t) else none := by
+  simp only [hexToUint8M, hexToUint8, hexAtM_eq]
+  split <;> split <;> first | rfl | omega
+
+/-- `hex_to_uint16(hex)` completes ⇔ 4 characters are mapped -/
+theorem hexToUint16M_eq (t : List Byte) :
+    hexToUint16M t = if 4 ≤ t.length then some (hexToUint16 t) else none := by
+  simp only [hexToUint16M, hexToUint16, hexAtM_eq]
+  by_cases h : 4 ≤ t.length
+  · simp [h, show 0 + 1 < t.length by omega, show 2 + 1 < t.length by omega]
+  · simp only [h, if_false]
+    have : ¬ (2 + 1 < t.length) := by omega
+    simp [this]
+
+/-- `hex_to_uint32(hex)` completes ⇔ 8 characters are mapped -/
+theorem hexToUint32M_eq (t : List Byte) :
+    hexToUint32M t = if 8 ≤ t.length then some (hexToUint32 t) else none := by
+  simp only [hexToUint32M, hexToUint32, hexAtM_eq]
+  by_cases h : 8 ≤ t.length
+  · simp [h, show 0 + 1 < t.length by omega, show 2 + 1 < t.length by omega, show 4 + 1 < t.length by omega, show 6 + 1 < t.length by omega]
+  · simp only [h, if_false]
+    have : ¬ (6 + 1 < t.length) := by omega
+    simp [this]
+
+/-- `hex_to_uint64(hex)` completes ⇔ 16 characters are mapped -/
+theorem hexToUint64M_eq (t : List Byte) :
+    hexToUint64M t = if 16 ≤ t.length then some (hexToUint64 t) else none := by
+  simp only [hexToUint64M, hexToUint64, hexAtM_eq]
+  by_cases h : 16 ≤ t.length
+  · simp [h, show 0 + 1 < t.length by omega, show 2 + 1 < t.length by omega, show 4 + 1 < t.length by omega, show 6 + 1 < t.length by omega,
+      show 8 + 1 < t.length by omega, show 10 + 1 < t.length by omega, show 12 + 1 < t.length by omega, show 14 + 1 < t.length by omega]
+  · simp only [h, if_false]
+    have : ¬ (14 + 1 < t.length) := by omega
+    simp [this]
+
+/-- nothing behind the `2·sizeof` characters is used: a longer buffer gives the same value -/
+theorem hexToUint8_prefix (t r : List Byte) (hl : t.length = 2) : hexToUint8 (t ++ r) = hexToUint8 t := by
+  simp only [hexToUint8, hexAt_append t r 0 (by omega)]
+theorem hexToUint16_prefix (t r : List Byte) (hl : t.length = 4) : hexToUint16 (t ++ r) = hexToUint16 t := by
+  simp only [hexToUint16, hexAt_append t r 0 (by omega), hexAt_append t r 2 (by omega)]
+theorem hexToUint32_prefix (t r : List Byte) (hl : t.length = 8) : hexToUint32 (t ++ r) = hexToUint32 t := by
+  simp only [hexToUint32, hexAt_append t r 0 (by omega), hexAt_append t r 2 (by omega), hexAt_append t r 4 (by omega),
+    hexAt_append t r 6 (by omega)]
+theorem hexToUint64_prefix (t r : List Byte) (hl : t.length = 16) : hexToUint64 (t ++ r) = hexToUint64 t := by
+  simp only [hexToUint64, hexAt_append t r 0 (by omega), hexAt_append t r 2 (by omega), hexAt_append t r 4 (by omega),
+    hexAt_append t r 6 (by omega), hexAt_append t r 8 (by omega), hexAt_append t r 10 (by omega), hexAt_append t r 12 (by omega),
+    hexAt_append t r 14 (by omega)]
+
+-- non-vacuity: a 4-character text, and the same text in a longer buffer
+example : hexToUint16M [0x61, 0x42, 0x33, 0x44] = some 0xAB3D#16 ∧ hexToUint16M [0x61, 0x42, 0x33] = none := by decide
+example : hexToUint16 ([0x61, 0x42, 0x33, 0x44] ++ [0x46, 0x46]) = 0xAB3D#16 := by decide
+
+/-! ## Round 3b: the domains of the "encode ∘ decode = id" theorems, exactly
+
+`hexDecode_accepts` and `hex_uintN_inverse` carry the hypothesis "upper-case hex digits (and the right length)".
+These are not merely sufficient: outside them the composition never gives the text back. -/
+
+/-- `hexascii_encode(hexascii_decode t) = t` ⇔ `t` has even length and consists of `0-9A-F` (every text) -/
+theorem hexDecode_accepts_iff (s : List Byte) :
+    hexEncode (hexDecode s) = s ↔ s.length % 2 = 0 ∧ ∀ c ∈ s, IsUpperHex c := by
+  constructor
+  · intro h
+    refine ⟨?_, by rw [← h]; exact hexEncode_alphabet _⟩
+    have := congrArg List.length h
+    rw [hexEncode_length, hexDecode_length] at this
+    omega
+  · intro ⟨hl, hc⟩; exact hexDecode_accepts s hc hl
+
+theorem hex_uint8_inverse_iff (t : List Byte) (hl : t.length = 2) :
+    uint8ToHex (hexToUint8 t) = t ↔ ∀ c ∈ t, IsUpperHex c :=
+  ⟨fun h => h ▸ (uint8ToHex_alphabet _).2, fun hc => hex_uint8_inverse t hc hl⟩
+theorem hex_uint16_inverse_iff (t : List Byte) (hl : t.length = 4) :
+    uint16ToHex (hexToUint16 t) = t ↔ ∀ c ∈ t, IsUpperHex c :=
+  ⟨fun h => h ▸ (uint16ToHex_alphabet _).2, fun hc => hex_uint16_inverse t hc hl⟩
+theorem hex_uint32_inverse_iff (t : List Byte) (hl : t.length = 8) :
+    uint32ToHex (hexToUint32 t) = t ↔ ∀ c ∈ t, IsUpperHex c :=
+  ⟨fun h => h ▸ (uint32ToHex_alphabet _).2, fun hc => hex_uint32_inverse t hc hl⟩
+theorem hex_uint64_inverse_iff (t : List Byte) (hl : t.length = 16) :
+    uint64ToHex (hexToUint64 t) = t ↔ ∀ c ∈ t, IsUpperHex c :=
+  ⟨fun h => h ▸ (uint64ToHex_alphabet _).2, fun hc => hex_uint64_inverse t hc hl⟩
+
+-- both sides of the equivalences occur: "A9" is given back, "a9" and "A9A" are not
+example : hexEncode (hexDecode [0x41, 0x39]) = [0x41, 0x39] ∧ hexEncode (hexDecode [0x61, 0x39]) ≠ [0x61, 0x39] ∧
+    hexEncode (hexDecode [0x41, 0x39, 0x41]) ≠ [0x41, 0x39, 0x41] := by decide
+
+/-- base64: re-encoding the decoder's result gives the text back exactly on the encoder's range (canonical
+texts) and nowhere else - together with `b64_roundtrip` the two routines are mutually inverse bijections between
+all byte strings and the canonical texts -/
+theorem b64_canonical_iff (t : List Byte) : b64Encode (b64Decode t) = t ↔ ∃ x, b64Encode x = t :=
+  ⟨fun h => ⟨_, h⟩, fun ⟨x, hx⟩ => by rw [← hx, b64_roundtrip]⟩
+theorem b64url_canonical_iff (t : List Byte) : b64urlEncode (b64urlDecode t) = t ↔ ∃ x, b64urlEncode x = t :=
+  ⟨fun h => ⟨_, h⟩, fun ⟨x, hx⟩ => by rw [← hx, b64url_roundtrip]⟩
 
 end Igris.C18
